@@ -42,6 +42,7 @@ CHANNELS += [('bytesio', 'bytesio', True, None, None), ('stringio', 'stringio', 
              ('http', 'http', False, None, None), ('http_opener', 'http_opener', False, None, None),
              # remote URLs WITHOUT a path: their base URL has no network location left ('http:')
              ('http-nopath', 'http_nopath', False, None, None), ('http-query', 'http_query', False, None, None),
+             ('opaque-url', 'http_opaque', False, None, None),
              ('raw-noseek-base-remote', 'raw', False, None, 'remote'),
              ('buffered-noseek-base-remote', 'buffered', False, None, 'remote')]
 
@@ -169,7 +170,7 @@ class C13(Check):
             chan = rng.choice([x for x in CHANNELS if x[0] in ('path', 'fileurl', 'http', 'text-base-None', 'text-base-remote')])
         if chan[1] in ('text', 'stringio', 'textio') and prolog in ('bom8', 'utf16', 'latin1'):
             prolog = 'plain'
-        if chan[1] in ('http_nopath', 'http_query') and role not in ('instance', 'instance_lazy', 'validate', 'main_schema'):
+        if chan[1] in ('http_nopath', 'http_query', 'http_opaque') and role not in ('instance', 'instance_lazy', 'validate', 'main_schema'):
             role = rng.choice(['instance', 'instance_lazy', 'validate', 'main_schema'])
         if chan[1] in ('http', 'http_opener') and rng.random() < 0.5:
             peer = rng.choice(['payload_then_benign', 'benign_then_payload'])
@@ -192,7 +193,7 @@ class C13(Check):
             return True
         if mode == 'never':
             return False
-        if kind in ('http', 'http_opener', 'http_nopath', 'http_query'):
+        if kind in ('http', 'http_opener', 'http_nopath', 'http_query', 'http_opaque'):
             locality = 'remote'
         elif kind in ('path', 'fileurl'):
             locality = 'local'
@@ -322,7 +323,7 @@ class C13(Check):
     def excused(self, case, chan, got):
         """Documented limits of the mechanism (never a different parse, only a refusal)."""
         name, kind, seekable, urlattr, base = chan
-        if (kind in ('http', 'http_opener', 'http_nopath', 'http_query') or case.get('part_locality') == 'remote') and \
+        if (kind in ('http', 'http_opener', 'http_nopath', 'http_query', 'http_opaque') or case.get('part_locality') == 'remote') and \
                 case['prolog'] in ('pad66k', 'subsetpad66k') and \
                 (got['exc'] in ('XMLResourceOSError', 'XMLResourceError', 'part-not-loaded') or
                  (case['role'] == 'hinted' and got['exc'] == 'XMLSchemaValueError')):
@@ -385,6 +386,8 @@ class C13(Check):
                 url = 'http://sim.test'
             elif kind == 'http_query':
                 url = 'http://sim.test?doc=1'
+            elif kind == 'http_opaque':
+                url = 'stub:doc.xml'        # a non-local scheme without any '/': its "directory" is empty
             peer.pages[url] = bodies if data is doc else [data]
             peer.plans[url] = plan
             if kind == 'http_opener':
